@@ -131,6 +131,12 @@ def verify_function(c: Contract, timeout_s: float = 10.0, solve: bool = True) ->
         rep.status = "error"
         rep.reason = f"target not found: {e}"
         return rep
+    try:
+        import spec.avm_axioms as _ax
+        _ax.ACTIVE_SETS.clear()
+        _ax.ACTIVE_SETS.update(c.axiom_sets)
+    except ImportError:
+        pass
     ex = Exec(fi, c, REGISTRY)
     ex.raised = []
     ex.known_heap_keys = {}
@@ -150,7 +156,7 @@ def verify_function(c: Contract, timeout_s: float = 10.0, solve: bool = True) ->
         ns0: Dict[str, Any] = dict(env)
         ns0.update(st.ghost)
         ns0["old"] = OldView(ex, st)
-        for cl in c.requires:
+        for cl in c.requires + c.assumes:
             g, st = ex.eval_clause(cl, ns0, st)
             st = st.assume(_b(g))
         rep.pre_witness = smt.quick_feasible(st.pc, 5000)
@@ -228,9 +234,15 @@ def verify_function(c: Contract, timeout_s: float = 10.0, solve: bool = True) ->
     return rep
 
 
+LISTED_FINDINGS: set = set()     # ids listed in known_findings.json (set by the CLI): their case obligations are not solved
+
+
 def _solve_one(o: Obligation, timeout_s: float) -> Any:
-    expected_to_fail = o.must_fail or getattr(o, "finding", None) is not None
-    return smt.prove(o.pc, o.goal, timeout_s=min(timeout_s, 3.0) if expected_to_fail else timeout_s,
+    fid = getattr(o, "finding", None)
+    if fid is not None and fid in LISTED_FINDINGS:
+        return smt.Result("unknown", "skipped", 0.0, reason="case of a listed finding (decided by its native witness)")
+    expected_to_fail = o.must_fail or fid is not None
+    return smt.prove(o.pc, o.goal, timeout_s=min(timeout_s, 2.0) if expected_to_fail else timeout_s,
                      portfolio=not expected_to_fail)
 
 
@@ -239,6 +251,15 @@ def solve_all(obls: List[Obligation], timeout_s: float, nproc: int = 0) -> None:
     child inherits them).  Children report status/backend/time; models of refuted obligations are recomputed here."""
     import json
     import os
+    # canaries: one unprovable path per clause is enough -- keep the first 4 paths of each
+    seen: Dict[Any, int] = {}
+    for o in obls:
+        if o.must_fail:
+            k = (o.kind, o.label)
+            seen[k] = seen.get(k, 0) + 1
+            if seen[k] > 4:
+                o.result = smt.Result("unknown", "skipped", 0.0, reason="canary sampled on other paths")
+    obls = [o for o in obls if o.result is None]
     n = len(obls)
     if nproc <= 0:
         nproc = min(int(os.environ.get("PYVC_SOLVER_PROCS", "8")), max(1, n // 25))
